@@ -76,6 +76,8 @@ def gen_case(rng, tier, est=None, seeded=None):
         k = rng.randint(1, 3)
         idx = rs.choice(n, size=k, replace=False)
         init = sig6(X[idx] + rs.randn(k, d) * 0.05 * (X.std(axis=0) + 1e-9))
+        if k > 1 and est == "kmeans" and rng.random() < 0.1:
+            init[-1] = init[-1] + 1e3 * (np.abs(X).max() + 1.0)  # a cluster that stays empty
         smax = float(np.abs(X).max()) or 1.0
         seeded = (rng.random() < 0.15) if seeded is None else seeded
         if est == "gmm_kminit":
@@ -351,7 +353,9 @@ def _near_tie(case, o):
         with np.errstate(all="ignore"), dask.config.set(scheduler="synchronous"):
             c = np.asarray(km.fit(X.copy()).centroids_, float)
         if not np.isfinite(c).all():
-            return True
+            # an empty cluster gives a (deterministic) NaN centroid; from here on every run
+            # must show the same NaN pattern, there is no tie left to flip
+            return False
         d2 = ((X[None] - c[:, None]) ** 2).sum(-1)
         if d2.shape[0] > 1:
             ds = np.sort(d2, axis=0)
